@@ -1,8 +1,10 @@
 (* C05 — property theorems only (statements + [exact]); proofs are in Proofs.v.
    U is any set of valid blocks (the "block tree"): ids injective, a child is higher than its parent and
-   carries at least the parent's cumulative QN. [rep s l] says the store s is exactly the image of the
-   chain l (head first, genesis last): hash index = l, height index = l (gaps where l has none, nothing
-   above the head), verify-hash index = l, head record = head of l, no marks, every root openable. *)
+   carries at least the parent's cumulative QN. [chain_ok U gen l]: l (head first, genesis last) is linked
+   by parent hashes, its blocks are in U and no transaction is carried by two of them. [rep s l] says the
+   store s is exactly the image of the chain l: hash index = l, height index = l (gaps where l has none,
+   nothing above the head), verify-hash index = l, head record = head of l, no marks, every root
+   openable, executed-transaction store = the transactions of l. *)
 From Coq Require Import List NArith Bool Lia.
 From V.C05 Require Import Model Proofs.
 Import ListNotations.
@@ -20,14 +22,15 @@ Theorem C05_inv_meaning : forall U gen, tree_ok U -> forall s, Inv U gen s ->
     (forall x, In x l -> byHash s (hash x) = Some x /\ byHeight s (height x) = Some x) /\
     (forall h x, byHash s h = Some x -> In x l /\ hash x = h) /\
     (forall n x, byHeight s n = Some x -> In x l /\ height x = n /\ height x <= height hd) /\
-    amark s = None /\ rmark s = None /\ head_openable s = true.
+    amark s = None /\ rmark s = None /\ head_openable s = true /\
+    (forall t, exec s t = true <-> exists x, In x l /\ In t (txs x)).
 Proof. intros U gen [H1 H2]. exact (inv_observables U gen H1 H2). Qed.
 Print Assumptions C05_inv_meaning.
 
 (* Any tree of valid blocks delivered in any order (duplicates, orphans before parents, forks of
    lower/equal/higher weight), any recursion budget, any waiting orphans: the invariant is kept. *)
-Theorem C05_inv_history : forall U gen, tree_ok U -> forall hist fuel fut s,
-  Forall U hist -> futs_ok U fut -> Inv U gen s -> Inv U gen (fst (run fuel fut s hist)).
+Theorem C05_inv_history : forall U gen, tree_ok U -> forall hist fuel v s,
+  Forall U hist -> vol_ok U gen v -> Inv U gen s -> Inv U gen (fst (run fuel v s hist)).
 Proof. intros U gen [H1 H2]. exact (run_inv U gen H1 H2). Qed.
 Print Assumptions C05_inv_history.
 
@@ -48,9 +51,9 @@ Print Assumptions C05_crash_safe_remove.
 
 (* The whole add-block entry point (fork choice, multi-block reorg, chained orphans): a crash after any
    write prefix and any interrupted restarts still ends in a state satisfying the invariant. *)
-Theorem C05_crash_safe_add : forall U gen, tree_ok U -> forall fuel fut s b,
-  futs_ok U fut -> U b -> Inv U gen s -> forall k js,
-  Inv U gen (recover (faults js (crash k (fst (fst (add_writes fuel fut s b))) s))).
+Theorem C05_crash_safe_add : forall U gen, tree_ok U -> forall fuel fut vf s b,
+  futs_ok U fut -> vf_ok U gen vf -> U b -> Inv U gen s -> forall k js,
+  Inv U gen (recover (faults js (crash k (fst (fst (fst (add_writes fuel fut vf s b)))) s))).
 Proof. intros U gen [H1 H2]. exact (add_crash_safe U gen H1 H2). Qed.
 Print Assumptions C05_crash_safe_add.
 
@@ -59,9 +62,9 @@ Print Assumptions C05_crash_safe_add.
    (prove value, hash) above the local block at the fork point. After a crash anywhere inside, the
    recovered chain is the new chain or a suffix of the old chain that still contains b's parent:
    old head, new head, or a block between the old head and the fork point. *)
-Theorem C05_head_move : forall U gen, tree_ok U -> forall f fut s l b,
-  chain_ok U gen l -> rep s l -> U b -> fut (hash b) = None ->
-  forall ws r ex, add_writes (S (S f)) fut s b = (ws, r, ex) ->
+Theorem C05_head_move : forall U gen, tree_ok U -> forall f fut vf s l b,
+  chain_ok U gen l -> rep s l -> U b -> vf_ok U gen vf -> fut (hash b) = None ->
+  forall ws r ex vf', add_writes (S (S f)) fut vf s b = (ws, r, ex, vf') ->
   ex = false /\ exists l', chain_ok U gen l' /\ rep (apply ws s) l' /\ move l b l' r /\
   forall k js, exists l'', chain_ok U gen l'' /\ rep (recover (faults js (crash k ws s))) l'' /\
      (l'' = l' \/ (suffix l'' l /\ (r = RSucc -> findH (pre b) l'' <> None))).
@@ -70,18 +73,40 @@ Print Assumptions C05_head_move.
 
 (* Without crashes the head's cumulative QN never decreases, whatever recursion the call performs
    (re-add after a reorg, chained orphans), provided the recursion budget was not exhausted. *)
-Theorem C05_weight_monotone : forall U gen, tree_ok U -> forall fuel fut s b,
-  futs_ok U fut -> U b -> Inv U gen s ->
-  forall ws r ex, add_writes fuel fut s b = (ws, r, ex) -> ex = false ->
+Theorem C05_weight_monotone : forall U gen, tree_ok U -> forall fuel fut vf s b,
+  futs_ok U fut -> vf_ok U gen vf -> U b -> Inv U gen s ->
+  forall ws r ex vf', add_writes fuel fut vf s b = (ws, r, ex, vf') -> ex = false ->
   forall hd hd', cur s = Some hd -> cur (apply ws s) = Some hd' -> qn hd <= qn hd'.
 Proof. intros U gen [H1 H2]. exact (add_qn_mono U gen H1 H2). Qed.
 Print Assumptions C05_weight_monotone.
 
+(* Pool clause. Whenever the store is the image of a chain l - by the theorems above: after every
+   delivery, and after the restart that follows a crash at any write of any delivery - the executed
+   store holds exactly the transactions of l's blocks, each carried by one block only. Hence after a
+   reorg the transactions of the removed blocks are unmarked unless the new chain carries them, and
+   those of the new chain are marked. (The volatile pending list is C17's model; the harness checks on
+   the real pool that unmarked transactions are pending again.) *)
+Theorem C05_pool_sync : forall U gen, tree_ok U -> forall s l, chain_ok U gen l -> rep s l ->
+  (forall t, exec s t = true <-> exists x, In x l /\ In t (txs x)) /\
+  (forall f x a t, l = f ++ x :: a -> In t (txs x) -> forall y, In y a -> ~ In t (txs y)).
+Proof.
+  intros U gen [H1 H2] s l Hc R. split.
+  - intro t. rewrite (r_exec _ _ R). unfold E. rewrite existsb_exists. split.
+    + intros [x [Hi Hm]]. exists x. split; auto. now apply tmem_in.
+    + intros [x [Hi Hm]]. exists x. split; auto. now apply tmem_in.
+  - intros f x a t El Hi y Hy Hty.
+    pose proof (chain_tx_once U gen l Hc f x a t El Hi) as Hf.
+    assert (E a t = true); [|congruence].
+    unfold E. apply existsb_exists. exists y. split; auto. now apply tmem_in.
+Qed.
+Print Assumptions C05_pool_sync.
+
 (* ---- non-vacuity and order-sensitivity on a concrete tree ---- *)
-Definition g0 := mkB 1 0 0 0 0 100.
-Definition a1 := mkB 2 1 1 1 5 101.
-Definition a2 := mkB 3 2 2 2 5 102.
-Definition b1 := mkB 4 1 1 3 4 103.   (* sibling of a1, heavier than a2 *)
+Definition g0 := mkB 1 0 0 0 0 100 [].
+Definition a1 := mkB 2 1 1 1 5 101 [7].
+Definition a2 := mkB 3 2 2 2 5 102 [8].
+Definition b1 := mkB 4 1 1 3 4 103 [9].      (* sibling of a1, heavier than a2 *)
+Definition c1 := mkB 5 1 1 9 4 104 [7].      (* heaviest sibling, carries a1's transaction *)
 Definition U0 (x : block) : Prop := In x [g0; a1; a2; b1].
 
 Lemma U0_tree : tree_ok U0.
@@ -98,23 +123,34 @@ Qed.
 (* The hypotheses are satisfiable: the image of [genesis] satisfies Inv; delivering a2 (orphan), a1
    (pulls a2 in), b1 (heavier fork: two removals and an insert) ends with head b1. *)
 Example C05_example :
-  Inv U0 g0 (st_of [g0]) /\
-  let s := fst (run 10 (fun _ => None) (st_of [g0]) [a2; a1; b1]) in
-  option_map hash (cur s) = Some 4 /\ is_some (byHeight s 2) = false /\ is_some (byHash s 2) = false.
+  Inv U0 g0 (st_of [g0]) /\ vol_ok U0 g0 (fun _ => None, fun _ => false) /\
+  let s := fst (run 10 (fun _ => None, fun _ => false) (st_of [g0]) [a2; a1; b1]) in
+  option_map hash (cur s) = Some 4 /\ is_some (byHeight s 2) = false /\ is_some (byHash s 2) = false /\
+  map (exec s) [7; 8; 9] = [false; false; true].
 Proof.
-  split.
+  split; [|split].
   - exists [g0]. split. cbn. split; [left|]; reflexivity. apply rep_st_of.
+  - split. intros h c; discriminate. intros b a rest _; discriminate.
   - vm_compute. repeat split; reflexivity.
 Qed.
+
+(* What the code does with a heavier sibling that carries a transaction of the local branch: verifyBlock
+   finds the transaction in the executed store and refuses the block (AddBlockFailed) before the fork
+   choice is reached; the head stays. (Safe for this property; such forks are left to the sync path.) *)
+Example C05_example_shared_tx_refused :
+  let '(s, _, r) := deliver 10 (fun _ => None, fun _ => false) (fst (run 10 (fun _ => None, fun _ => false) (st_of [g0]) [a1])) c1 in
+  r = RFailed /\ option_map hash (cur s) = Some 2.
+Proof. vm_compute. split; reflexivity. Qed.
 
 (* The proof depends on the write order: with the add mark erased BEFORE the head record is written
    (last two writes of insertBlock swapped), a crash between them leaves a1 indexed above the head and
    no mark for the restart to act on - the invariant is lost. *)
 Definition insert_writes_swapped (b : block) : list write :=
-  [WAddMark b; WPutHash b; WPutHeight b; WState (root b); WPutV (height b) (hash b); WDelAddMark; WCur b].
+  [WAddMark b; WPutHash b; WPutHeight b; WState (root b); WPutV (height b) (hash b); WExec (txs b);
+   WDelAddMark; WCur b].
 
 Example C05_order_matters :
-  ~ Inv U0 g0 (recover (crash 6 (insert_writes_swapped a1) (st_of [g0]))).
+  ~ Inv U0 g0 (recover (crash 7 (insert_writes_swapped a1) (st_of [g0]))).
 Proof.
   intro H. destruct (C05_inv_meaning U0 g0 U0_tree _ H) as [l [hd [_ [Hc [_ [_ [_ [Hh _]]]]]]]].
   vm_compute in Hc. inversion Hc; subst hd.
